@@ -27,6 +27,8 @@ TSt == /\ l <= Len(Trace)
               bb == IF fresh THEN <<>> ELSE byBytes
               v == (IF ~e.hashok THEN {V("a node is written under a name that is not the digest of its bytes")} ELSE {})
                    \cup (IF ~e.dec THEN {V("written bytes are not a node of the tree's format")} ELSE {})
+                   \* the bytes are a function of the entries and child names alone: they are the one encoding the format gives them
+                   \cup (IF e.dec /\ ~e.canon THEN {V("the bytes written are not the encoding the format gives the node's entries and child names (the same node has more than one encoding)")} ELSE {})
                    \cup (IF e.name \in DOMAIN bn /\ bn[e.name] # e.bdig THEN {V("the same name is written with different bytes")} ELSE {})
                    \cup (IF e.dec /\ e.node \in DOMAIN bo /\ bo[e.node] # e.bdig THEN {V("the same entries and child names are encoded to different bytes")} ELSE {})
                    \cup (IF e.dec /\ e.bdig \in DOMAIN bb /\ bb[e.bdig] # e.node THEN {V("different contents are written as the same bytes")} ELSE {})
